@@ -190,9 +190,14 @@ def handleRun (args : List String) : String :=
       (files.splitOn ",").filterMap fun e =>
         match e.splitOn "=" with
         | [p, c] =>
+          -- the entries of the initial tree are named by their components (no `..`: the harness lists
+          -- each file and directory by its canonical path below the sandbox root)
           let comps := Fs.components (unhex p)
           if c == "d" then some (comps, FsNode.dir) else some (comps, FsNode.file (unhex (c.drop 1).toString))
         | _ => none
+    -- a listed file lies in directories: its ancestors exist as directories (the tree is parent-closed, as on disk)
+    let fs : Fs.Tree := fs.foldl (fun acc e =>
+      (Fs.prefixes e.1).dropLast.foldl (fun a q => if Fs.pathExists a q then a else (q, FsNode.dir) :: a) acc) fs
     let world : World := { stdin := unhex stdin, rng := rngL, fs := fs }
     let out := run cfg fuel.toNat! (unhex src) world (unhex path)
     let status := match out.status with
